@@ -289,7 +289,12 @@ class AwaitCtl:
                 self.maybe_interrupted(I, coro.qualname)
             except _Interrupt as it:
                 raise PyRaise(it.exc)
-            r = modular.apply_contract(I, con, coro.pyfunc, coro.args, coro.kwargs, coro.bound_self, announced=True)
+            try:
+                r = modular.apply_contract(I, con, coro.pyfunc, coro.args, coro.kwargs, coro.bound_self, announced=True)
+            except PyRaise as pr:
+                # a failure the callee's contract declares: scripted for the native replay like any other outcome
+                _log(I.ctx, {"kind": coro.qualname, "outcome": "exception:" + exc_class(pr.exc).__name__, "exc_sym": pr.exc})
+                raise
             from .interp import UnpackableResult
 
             _log(I.ctx, {"kind": coro.qualname, "outcome": "return",
